@@ -582,7 +582,7 @@ def _fd_low_rank_pack(eigvecs, deflated_eigs, inverted_eigs, new_const,
   assert list(inverted_eigs.shape) == [rank], inverted_eigs.shape
   assert _precond_dim(rank, d) == rank + 2
   assert _precond_dim(rank, d) < d
-  precond = jnp.zeros((d, rank + 2))
+  precond = jnp.zeros((d, rank + 2), dtype=eigvecs.dtype)
   precond = precond.at[:, :rank].set(eigvecs)
   precond = precond.at[:rank, -2].set(inverted_eigs)
   precond = precond.at[0, -1].set(new_const)
